@@ -6,8 +6,11 @@ package control
 import (
 	crand "crypto/rand"
 	"fmt"
+	"maps"
 	"math/rand"
 	"os"
+	"reflect"
+	"slices"
 	"sort"
 	"time"
 	"unsafe"
@@ -73,4 +76,19 @@ func Select(a, b chan int) int {
 	case y := <-b:
 		return y
 	}
+}
+
+// map handed to dependency code that enumerates it in iteration order
+func BadMapEscape(m map[string]int) []string {
+	return slices.Collect(maps.Keys(m))
+}
+
+// map boxed into an interface and handed to dependency code
+func BadBoxedMap(m map[string]int) int {
+	return reflect.ValueOf(m).Len()
+}
+
+// order-safe uses: size, sorted printing
+func GoodMapUses(m map[string]int) string {
+	return fmt.Sprint(len(m), m)
 }
